@@ -387,7 +387,7 @@ impl Clone for Natural {
         self.shl = source.shl;
         if self.ptr == DANGLING {
             if source.ptr != DANGLING {
-                let slice = std::ptr::slice_from_raw_parts(source.ptr.as_ptr(), self.len as usize);
+                let slice = std::ptr::slice_from_raw_parts(source.ptr.as_ptr(), source.len as usize);
                 // SAFETY: `source.ptr` is not dangling, thus the pointer is
                 // valid and we have shared access to the slice
                 let clone: *mut [u64] = Box::into_raw(unsafe { &*slice }.into());
@@ -410,6 +410,8 @@ impl Clone for Natural {
                 return;
             }
             self.ptr = NonNull::new(Box::<[u64]>::into_raw(src.into()).cast()).unwrap();
+        } else {
+            self.ptr = DANGLING;
         }
         self.len = source.len;
 
